@@ -144,6 +144,9 @@ func (m *emodel) write(u wunit, data [][]byte) {
 			m.codecPar = m.curParam
 			m.pending = true
 		}
+		if u.NoSlice {
+			return // parameter sets only: noted above, nothing to mux
+		}
 		paramsChanged := false
 		if u.RA && m.pending {
 			m.pending = false
